@@ -257,7 +257,8 @@ def _normalise_call(body, bi, closures):
     return True
 
 
-TRAVERSALS = {"std::iter::Iterator::try_for_each": "try", "std::iter::Iterator::for_each": "plain"}
+TRAVERSALS = {"std::iter::Iterator::try_for_each": "try", "std::iter::Iterator::for_each": "plain",
+              "std::iter::Iterator::try_fold": "try_fold"}
 
 
 def _normalise_traversal(body, bi, closures):
@@ -268,6 +269,8 @@ def _normalise_traversal(body, bi, closures):
     t = body["blocks"][bi]["term"]
     kind = TRAVERSALS[t["callee"]]
     args = t["args"]
+    if kind == "try_fold":
+        return _normalise_try_fold(body, bi, closures)
     if len(args) != 2 or t.get("t") is None:
         return False
     it = args[0]
@@ -313,6 +316,57 @@ def _normalise_traversal(body, bi, closures):
                                     "obligations": [], "args": [{"l": ref, "p": [], "ty": "", "k": "move"}], "dest": bld.plain(opt, OPTION + "<>"),
                                     "t": sw, "unwind": None, "span": span, "fn_span": span, "synthetic_call": True}
     body["blocks"][bi]["term"] = {"k": "goto", "t": head, "span": span, "normalised_traversal": t["callee"]}
+    body.setdefault("normalised_combinators", []).append(t["callee"])
+    return True
+
+
+def _normalise_try_fold(body, bi, closures):
+    """`iter.try_fold(init, |acc, x| f(acc, x))` with a Result-returning f is
+        let mut acc = init; for x in iter { acc = f(acc, x)?; } Ok(acc)
+    (the early exit hands f's own Err on)."""
+    t = body["blocks"][bi]["term"]
+    args = t["args"]
+    if len(args) != 3 or t.get("t") is None:
+        return False
+    it = args[0]
+    if it.get("k") not in ("copy", "move") or it.get("p"):
+        return False
+    cd = _closure_def_of(body, args[2])
+    if cd is None or cd[0] not in closures or closures[cd[0]]["arg_count"] != 3:
+        return False
+    dest = t["dest"]
+    if not (dest.get("ty") or "").startswith(RESULT):
+        return False
+    span = t.get("span", {"s": "", "x": False})
+    bld = _Builder(body, span)
+    cont = t["t"]
+    ref = bld.local("")
+    opt = bld.local(OPTION + "<>")
+    d = bld.local("isize")
+    d2 = bld.local("isize")
+    item = bld.local("")
+    acc = bld.local("")
+    res = bld.local(dest.get("ty") or "")
+    done = bld.block([bld.assign(copy.deepcopy(dest), bld.agg(RESULT, "Ok", 0, [{"l": acc, "p": [], "ty": "", "k": "move"}]))], bld.goto(cont))
+    fail = bld.block([bld.assign(copy.deepcopy(dest), {"k": "through", "adt": RESULT, "variant": "Err", "op": {"l": res, "p": [], "ty": "", "k": "move"}})], bld.goto(cont))
+    head = bld.block([], {"k": "unreachable", "span": span})
+    keep = bld.block([bld.assign(bld.plain(acc), {"k": "use", "op": bld.payload(res, "Ok", 0)})], bld.goto(head))
+    after = bld.block([bld.assign(bld.plain(d2, "isize"), {"k": "discr", "place": {"l": res, "p": [], "ty": ""}, "adt": RESULT, "variants": VARIANTS[RESULT]})],
+                      {"k": "switch", "discr": {"l": d2, "p": [], "ty": "isize", "k": "move"}, "targets": [[0, keep], [1, fail]], "otherwise": fail,
+                       "span": span, "combinator": t["callee"]})
+    call_pre = _apply_fn(bld, body, closures, args[2], [{"l": acc, "p": [], "ty": "", "k": "move"}, {"l": item, "p": [], "ty": "", "k": "move"}], bld.plain(res), after)
+    if call_pre is None:
+        return False
+    some = bld.block([bld.assign(bld.plain(item), {"k": "use", "op": bld.payload(opt, "Some", 1)})], bld.goto(call_pre))
+    sw = bld.block([bld.assign(bld.plain(d, "isize"), {"k": "discr", "place": {"l": opt, "p": [], "ty": ""}, "adt": OPTION, "variants": VARIANTS[OPTION]})],
+                   {"k": "switch", "discr": {"l": d, "p": [], "ty": "isize", "k": "move"}, "targets": [[0, done], [1, some]], "otherwise": done,
+                    "span": span, "combinator": t["callee"]})
+    body["blocks"][head]["stmts"] = [bld.assign(bld.plain(ref), {"k": "ref", "mut": True, "place": {"l": it["l"], "p": [], "ty": ""}})]
+    body["blocks"][head]["term"] = {"k": "call", "callee": "std::iter::Iterator::next", "callee_args": [], "callee_local": None, "resolved": None,
+                                    "obligations": [], "args": [{"l": ref, "p": [], "ty": "", "k": "move"}], "dest": bld.plain(opt, OPTION + "<>"),
+                                    "t": sw, "unwind": None, "span": span, "fn_span": span, "synthetic_call": True}
+    init = bld.block([bld.assign(bld.plain(acc), {"k": "use", "op": copy.deepcopy(args[1])})], bld.goto(head))
+    body["blocks"][bi]["term"] = {"k": "goto", "t": init, "span": span, "normalised_traversal": t["callee"]}
     body.setdefault("normalised_combinators", []).append(t["callee"])
     return True
 
